@@ -99,3 +99,22 @@ func (cs *ConsensusState) VerifCloseWAL() {
 		cs.wal.Stop()
 	}
 }
+
+// VerifPopPeer takes the next message a reactor queued for the state machine, if any.
+func (cs *ConsensusState) VerifPopPeer() (ConsensusMessage, string, bool) {
+	select {
+	case mi := <-cs.peerMsgQueue:
+		return mi.Msg, mi.PeerKey, true
+	default:
+		return nil, "", false
+	}
+}
+
+// VerifStartReactorOnly marks the reactor as running without starting the state machine's
+// goroutines, so that Receive can be called while the state machine is stepped by hand.
+func (conR *ConsensusReactor) VerifStartReactorOnly() {
+	fs := conR.fastSync
+	conR.fastSync = true
+	conR.Start()
+	conR.fastSync = fs
+}
